@@ -86,6 +86,34 @@ func (d *C10Dup) Describe() string {
 	return fmt.Sprintf("audit_id=%d audit_note=%q b_id=%d b_note=%q id=%d label=%q", d.C10AuditA.ID, d.C10AuditA.Note, d.C10AuditB.ID, d.C10AuditB.Note, d.ID, d.Label)
 }
 
+// C10Late is registered only after the process has already converted Go values to records
+type C10Late struct {
+	Tag string `json:"tag"`
+	N   int64  `json:"n"`
+}
+
+type C10Holder struct {
+	Name string   `json:"name"`
+	L    *C10Late `json:"l"`
+}
+
+func (o *C10Outer) EchoLate(x *C10Late) *C10Late       { return x }
+func (o *C10Outer) EchoHolder(x *C10Holder) *C10Holder { return x }
+func (o *C10Outer) DescribeLate(x *C10Late) string     { return fmt.Sprintf("tag=%q n=%d", x.Tag, x.N) }
+
+var c10lateOnce sync.Once
+
+func c10RegisterLate() {
+	c10lateOnce.Do(func() {
+		zygo.GoStructRegistry.RegisterUserdef(&zygo.RegisteredType{GenDefMap: true, Factory: func(env *zygo.Zlisp, h *zygo.SexpHash) (interface{}, error) {
+			return &C10Late{}, nil
+		}}, true, "c10late")
+		zygo.GoStructRegistry.RegisterUserdef(&zygo.RegisteredType{GenDefMap: true, Factory: func(env *zygo.Zlisp, h *zygo.SexpHash) (interface{}, error) {
+			return &C10Holder{}, nil
+		}}, true, "c10holder")
+	})
+}
+
 func (o *C10Outer) DescribeSecond(first *C10Outer, x *C10Outer) string { return c10Describe(x) }
 func (o *C10Outer) Echo(x *C10Outer) *C10Outer                         { return x }
 func (o *C10Outer) EchoIn(x *C10Inner) *C10Inner                       { return x }
@@ -367,7 +395,7 @@ func init() {
 		ID:    "C10",
 		Level: "exploration",
 		Rule: "random values of harness-registered Go struct types covering every supported field kind (int, int64, float64, string, bool, []int, []string, []byte, map[string]string, map[string]float64, *Inner, nested struct value, interface-typed field, []Iface and []*Inner holding other registered structs, embedded structs three levels deep with tagged fields, untagged field) with shared records (the same record in two fields / twice in a slice): the record literal denoting the value is evaluated, then " +
-			"(1) SexpToGoStructs and the implicit conversions when the record is the receiver or an argument of a Go method must produce a Go value equal to the generated one (canonical rendering with pointer identity); (2) (_method o Echo: r) must hand back a record whose every field equals r's (absent fields zero/nil/empty), also with nil pointers, nil interfaces and empty slices; (3) a record with one undeclared field or one value of the wrong kind (string into int, fractional float into int, int into pointer, array of strings into []int, string into bool, hash into string) must make the conversion report an error to the script, never succeed (an undeclared field also when its value is nil or []); (4) a struct whose Go field names repeat across three places of its embedding tree under different tags converts in both directions field by field; (5) convert / change every field with hset (fields no longer wanted set to nil) / convert again: a conversion into a fresh struct, the first- and second-argument routes and an explicit (togo r) followed by a call must all see the record as it is now (the bare receiver route keeps the Go object attached by the first conversion, by design, and is not judged after changes). non-trivial = distinct value with a nested/shared record or a slice/map field",
+			"(1) SexpToGoStructs and the implicit conversions when the record is the receiver or an argument of a Go method must produce a Go value equal to the generated one (canonical rendering with pointer identity); (2) (_method o Echo: r) must hand back a record whose every field equals r's (absent fields zero/nil/empty), also with nil pointers, nil interfaces and empty slices; (3) a record with one undeclared field or one value of the wrong kind (string into int, fractional float into int, int into pointer, array of strings into []int, string into bool, hash into string) must make the conversion report an error to the script, never succeed (an undeclared field also when its value is nil or []); (4) a struct whose Go field names repeat across three places of its embedding tree under different tags converts in both directions field by field; (6) struct types registered after the process has already converted Go values to records make the trip through Go, alone and nested; (5) convert / change every field with hset (fields no longer wanted set to nil) / convert again: a conversion into a fresh struct, the first- and second-argument routes and an explicit (togo r) followed by a call must all see the record as it is now (the bare receiver route keeps the Go object attached by the first conversion, by design, and is not judged after changes). non-trivial = distinct value with a nested/shared record or a slice/map field",
 		Assumptions: []string{
 			"int into a float64 field is an accepted conversion (value preserved)",
 			"time.Time members come back from Go as nil (pinned by the repository's own Test018), so a time field is only required to arrive in Go (non-zero) and is expected to be nil after the trip back",
@@ -375,7 +403,7 @@ func init() {
 		NCases:   func(c *core.Ctx) int { return thorN(c, 2000, 50000) },
 		Chunk:    100,
 		Sanitize: true,
-		MustSee:  []string{"record_to_go", "receiver_conversions", "argument_conversions", "echo_round_trips", "shared_records", "negative_cases", "repeated_field_names", "convert_change_convert"},
+		MustSee:  []string{"record_to_go", "receiver_conversions", "argument_conversions", "echo_round_trips", "shared_records", "negative_cases", "repeated_field_names", "convert_change_convert", "late_registered_types"},
 		Run:      c10Run,
 	})
 }
@@ -392,6 +420,9 @@ func c10Run(c *core.Ctx, i int) *core.Result {
 	}
 	if i%10 == 2 {
 		return c10Sequence(c, i, r, res)
+	}
+	if i%10 == 5 {
+		return c10LateCase(c, i, r, res)
 	}
 	v := c10Gen(r)
 	text := v.defs + "(def r " + v.literal + ")\n"
@@ -557,6 +588,39 @@ func c10DupCase(c *core.Ctx, i int, r *core.Rng, res *core.Result) *core.Result 
 		res.Violate("echo-fails", "reading the echoed c10dup record fails: "+OutStr(o), text)
 	} else if got := o.Val.SexpString(nil); got != wantList {
 		res.Violate("echo-differs:repeated-field-names", fmt.Sprintf("the record returned by Echo holds %s, want %s", got, wantList), text)
+	}
+	return res
+}
+
+// c10LateCase: struct types registered after the process has already converted Go values to records
+// (any caches built by then must not hide them): a value of such a type handed back by a method, alone
+// and nested inside another late type, must come back as a record of its type with its field values,
+// and must be accepted again as an argument.
+func c10LateCase(c *core.Ctx, i int, r *core.Rng, res *core.Result) *core.Result {
+	tag := []string{"two", "", "ünï", "a b"}[r.N(4)]
+	n := int64(r.N(1000))
+	pre := "(def warm (first (_method (c10outer) Echo: (c10outer i:1 p:(c10inner n:2)))))\n"
+	s := NewSutRun(true)
+	if o := s.Eval(pre, 0); o.Err != nil || o.Panic != "" {
+		res.Violate("echo-fails", "warm-up Echo fails: "+OutStr(o), pre)
+		return res
+	}
+	c10RegisterLate()
+	s2 := NewSutRun(true) // the type names become globals when an interpreter is set up
+	text := pre + fmt.Sprintf("(def e (first (_method (c10outer) EchoLate: (c10late tag:%q n:%d))))\n(def h (first (_method (c10outer) EchoHolder: (c10holder name:\"hold\" l:(c10late tag:%q n:%d)))))\n(list (type? e) (hget e tag: \"?\") (hget e n: -1) (first (_method (c10outer) DescribeLate: e)) (type? h) (type? (hget h l: 0)) (hget (hget h l: (hash)) n: -1))\n", tag, n, tag, n+1)
+	res.Input, res.Hash, res.Nontrivial = text, core.HashOf(text), true
+	o := s2.Eval(text, 0)
+	res.Evals += 2
+	res.Ev("late_registered_types", 1)
+	if o.Panic != "" {
+		res.Violate("escaped-panic:"+o.Site, o.Panic, text)
+		return res
+	}
+	want := fmt.Sprintf("(%q %q %d %q %q %q %d)", "c10late", tag, n, fmt.Sprintf("tag=%q n=%d", tag, n), "c10holder", "c10late", n+1)
+	if o.Err != nil {
+		res.Violate("echo-fails:late-registered-type", "a value of a struct type registered after the first Go-to-record conversion cannot make the trip: "+OutStr(o), text)
+	} else if got := sut.Show(o.Val); got != want {
+		res.Violate("echo-differs:late-registered-type", fmt.Sprintf("a value of a struct type registered after the first Go-to-record conversion comes back as %s, want %s", got, want), text)
 	}
 	return res
 }
